@@ -6,7 +6,8 @@ Ok(kind, ds, v) == [k |-> "ok", kind |-> kind, ds |-> ds, v |-> v]
 Bad(k) == [k |-> k, kind |-> "", ds |-> {}, v |-> 0]
 
 \* quick: 2 directories, 2 Spec names, 1 noise name
-QDirLists == { <<"A">>, <<"A", "B">>, <<"B", "A">>, <<"A", "A">>, <<>> }
+\* (a directory may be listed again after another one: its later position counts)
+QDirLists == { <<"A">>, <<"A", "B">>, <<"B", "A">>, <<"A", "A">>, <<"A", "B", "A">>, <<>> }
 QContents == { Ok("k1", {"x"}, 1), Ok("k1", {"y"}, 1), Ok("k1", {"x", "y"}, 1), Ok("k2", {"x"}, 1), Bad("syntax") }
 QNoise    == { Ok("k1", {"x", "y"}, 1) }
 QOrder    == << "a.json", "b.yaml", "n.txt" >>
